@@ -29,6 +29,8 @@ type Case struct {
 	Depth   int    `json:"depth"`
 	Rich    bool   `json:"rich"`
 	Choices []int  `json:"choices"`
+	Kind    string `json:"kind,omitempty"`
+	K       int    `json:"k,omitempty"`
 	Source  string `json:"source,omitempty"`
 }
 
@@ -46,6 +48,10 @@ func program(c Case) *gen.Program {
 		return gen.Replay(c.Choices, gen.Cflow(gen.CflowCfg{Budget: c.Budget, MaxDepth: c.Depth, Rich: c.Rich})).Prog
 	case "func":
 		return gen.Replay(c.Choices, gen.Funcs(gen.FuncCfg{Budget: c.Budget}))
+	case "dce":
+		return gen.Replay(c.Choices, gen.Dce).Prog
+	case "tails":
+		return gen.Tails(c.Kind, c.K)
 	}
 	return nil
 }
@@ -259,6 +265,7 @@ func main() {
 		{"consts", Case{Family: "consts", Budget: r.Pick(3, 4)}},
 		{"cflow", Case{Family: "cflow", Budget: r.Pick(2, 3), Depth: 2, Rich: true}},
 		{"func", Case{Family: "func", Budget: r.Pick(2, 3)}},
+		{"dce", Case{Family: "dce"}},
 	}
 	for _, f := range fams {
 		f := f
@@ -286,8 +293,30 @@ func main() {
 			gen.ParallelEnumerate(g, 3, func(p gen.CflowProgram, ch []int) { visit(ch, tg.Print(p.Prog).AllText) })
 		case "func":
 			gen.ParallelEnumerate(gen.Funcs(gen.FuncCfg{Budget: f.c.Budget}), 3, func(p *gen.Program, ch []int) { visit(ch, tg.Print(p).AllText) })
+		case "dce":
+			gen.ParallelEnumerate(gen.Dce, 3, func(p gen.CflowProgram, ch []int) { visit(ch, tg.Print(p.Prog).AllText) })
 		}
 	}
+	// tails family: trailing-instruction operand values 0..40 (constant index, counts, ...)
+	var tails []Case
+	for _, k := range gen.TailKinds {
+		for i := 0; i < gen.TailCount(k); i++ {
+			tails = append(tails, Case{Family: "tails", Kind: k, K: i})
+		}
+	}
+	report.ParallelFor(len(tails), func(i int) {
+		c := tails[i]
+		fails, obs := runCase(c, &st)
+		atomic.AddInt64(&evals, 1)
+		text := tg.Print(program(c)).AllText
+		distinct.Add(text)
+		r.Outcome("tails/" + obs)
+		r.Count("programs/tails", 1)
+		for _, fl := range fails {
+			c.Source = text
+			r.Violation(fl.sig, fl.what, c)
+		}
+	})
 	r.Set("constants_seen", st.consts)
 	r.Set("duplicate_constants_removed", st.dupRemoved)
 	r.Set("abstract_states_checked_on_transformed_bytecode", st.fnStates)
